@@ -100,6 +100,26 @@ func sinkWritesRule(r *Run, rule string) {
 				r.Ok(rule, f.Name(), con, w.Pos(c.Pos()), "inside a helper that only the sink (and its helpers) call")
 			} else if arg := writtenString(w, info, c); arg != nil && htmlOrigin(w, info, f, arg, nil, 0) == originTemplateText {
 				r.Ok(rule, f.Name(), con, w.Pos(c.Pos()), "literal template text, written as it is (what the sink does with it)")
+			} else if pi, isRaw := w.rawWriteHelpers()[f.Obj]; isRaw {
+				// a helper that writes its own string parameter: what matters is what its callers outside the sink hand to it
+				r.Ok(rule, f.Name(), con, w.Pos(c.Pos()), "writes its own string parameter as it is; the call sites outside the sink are checked")
+				for _, g := range w.Funcs("") {
+					if g.Obj == sink.Obj || family[g.Obj] || g.Obj == f.Obj {
+						continue
+					}
+					ginfo := g.Pkg.TypesInfo
+					for _, gc := range callsIn(g.Decl.Body, false) {
+						if calleeOf(ginfo, gc) != f.Obj || pi >= len(gc.Args) {
+							continue
+						}
+						gcon := "raw write " + short(w.Fset, gc)
+						if htmlOrigin(w, ginfo, g, gc.Args[pi], nil, 0) == originTemplateText {
+							r.Ok(rule, g.Name(), gcon, w.Pos(gc.Pos()), "literal template text, written as it is (what the sink does with it)")
+						} else {
+							r.Bad(rule, g.Name(), gcon, w.Pos(gc.Pos()), "a string that is not literal template text is written to the output without passing the sink's typed escaping dispatch")
+						}
+					}
+				}
 			} else {
 				r.Bad(rule, f.Name(), con, w.Pos(c.Pos()), "output is written to a strings.Builder outside the sink: it bypasses the typed escaping dispatch")
 			}
@@ -118,6 +138,49 @@ func sinkWritesRule(r *Run, rule string) {
 			}
 		}
 	}
+}
+
+// rawWriteHelpers: functions of the evaluator package other than the sink that write one of their own string
+// parameters to a strings.Builder as it is (and nothing else); maps the function to that parameter's index.
+func (w *World) rawWriteHelpers() map[*types.Func]int {
+	w.memoMu.Lock()
+	if w.memo == nil {
+		w.memo = map[string]interface{}{}
+	}
+	if v, ok := w.memo["rawWriteHelpers"]; ok {
+		w.memoMu.Unlock()
+		return v.(map[*types.Func]int)
+	}
+	w.memoMu.Unlock()
+	out := map[*types.Func]int{}
+	sink := w.sinkMethod()
+	for _, f := range w.Funcs("") {
+		if sink != nil && f.Obj == sink.Obj {
+			continue
+		}
+		info := f.Pkg.TypesInfo
+		sig := f.Obj.Type().(*types.Signature)
+		idx, n := -1, 0
+		for _, c := range callsIn(f.Decl.Body, false) {
+			if !isBuilderWrite(info, c) {
+				continue
+			}
+			n++
+			arg := writtenString(w, info, c)
+			for i := 0; arg != nil && i < sig.Params().Len(); i++ {
+				if objOf(info, arg) == types.Object(sig.Params().At(i)) && isBasicKind(sig.Params().At(i).Type(), types.String) {
+					idx = i
+				}
+			}
+		}
+		if n == 1 && idx >= 0 {
+			out[f.Obj] = idx
+		}
+	}
+	w.memoMu.Lock()
+	w.memo["rawWriteHelpers"] = out
+	w.memoMu.Unlock()
+	return out
 }
 
 const originTemplateText = "template text (HTMLLiteral.Value)"
@@ -191,11 +254,12 @@ func sinkRoutingRule(r *Run, rule string) {
 		}
 		info := f.Pkg.TypesInfo
 		for _, c := range callsIn(f.Decl.Body, false) {
-			if calleeOf(info, c) != sink.Obj || len(c.Args) != 2 {
+			vi := w.sinkValueIndex()
+			if calleeOf(info, c) != sink.Obj || vi < 0 || vi >= len(c.Args) {
 				continue
 			}
 			con := "sink call " + short(w.Fset, c)
-			if o := objOf(info, c.Args[1]); o != nil {
+			if o := objOf(info, c.Args[vi]); o != nil {
 				r.Ok(rule, f.Name(), con, w.Pos(c.Pos()), "the evaluation result variable is passed unconverted")
 			} else {
 				r.Bad(rule, f.Name(), con, w.Pos(c.Pos()), "the value is converted or wrapped on its way to the sink: its type decides between escaping and verbatim output")
